@@ -38,11 +38,15 @@ def r1_writers(ctx):
             continue
         o = ctx.origins(body)
         for bi, line, base, v, place in stores_through(body, o):
-            if not (isinstance(base, tuple) and base[0] == "var" and len(base) > 2):
-                continue
-            ty = body.lty(base[2])
-            if not (ty.get("k") == "adt" and ty.get("adt") == "tokio::sync::MutexGuard" and ty.get("args") and ty["args"][0]["s"].endswith("time::Instant")):
-                continue
+            named = isinstance(base, tuple) and base and base[0] == "var" and len(base) > 2
+            if named:
+                ty = body.lty(base[2])
+                if not (ty.get("k") == "adt" and ty.get("adt") == "tokio::sync::MutexGuard" and ty.get("args") and ty["args"][0]["s"].endswith("time::Instant")):
+                    continue
+            else:
+                # `*state.last_received.lock().await = ..`: the guard is a temporary
+                if not any(is_call_term(s_, "Mutex::<T>::lock", "Mutex::lock", "Mutex::<T>::try_lock", "Mutex::<T>::blocking_lock") and "last_received" in fmt(s_) for s_ in subterms(base)):
+                    continue
             n += 1
             fn = key.replace(S, "").split("::{closure")[0]
             in_arm = False
@@ -375,15 +379,62 @@ def r8_give_up_test_is_taken_at_the_tick(ctx):
            "every request is closed", path=None if ok else render_path(hb, p))
 
 
+def r9_nothing_stalls_the_give_up_test(ctx):
+    """the give-up test runs once per tick only as long as the loop gets back to the tick: whatever the monitor awaits between
+    two ticks must not be able to wait, without a bound, behind a transport write.  A probe written inline with
+    `write_control_frame(..).await` queues for Session.buffer / Session.writer; a data write that is stuck in the transport
+    (the peer no longer reads: exactly the silent peer the monitor exists for) holds those locks for as long as TCP keeps
+    retrying, the monitor never reaches another tick, and the session is not closed within timeout + interval"""
+    from .C11 import _future_calls, _cls_names, BUFFER_CLS_FIELD, WRITER_CLS_FIELD
+    hb = _heartbeat_task(ctx)
+    if hb is None:
+        return
+    cfg, o = ctx.cfg(hb), ctx.origins(hb)
+    ticks = [c for c in hb.calls() if (c.norm or "").endswith("Interval::tick")]
+    if not ticks:
+        ctx.missing("R14.9", "tick of the monitor loop")
+        return
+    loop = cfg.cycle_blocks(ticks[0].bb)
+    names = _cls_names(ctx)
+    la = ctx.locks("client")
+    key = ctx.cg.key_of(hb)
+    bounded = set()
+    for c in hb.calls():
+        if (c.norm or "").endswith(("time::timeout", "time::timeout_at")) and len(c.args) > 1:
+            for s_ in _future_calls(o.of_operand(c.args[1])):
+                if isinstance(s_, tuple) and len(s_) > 2:
+                    bounded.add(s_[2])
+    n = 0
+    stalls = []
+    for e in ctx.cg.callees(key):
+        if e.bb not in loop or e.kind == "await":
+            continue
+        held = {names.get(cls, cls) for (cls, mode) in la.summary.get(e.dst, {})}
+        if not held & {BUFFER_CLS_FIELD, WRITER_CLS_FIELD}:
+            continue
+        n += 1
+        if e.bb not in bounded:
+            stalls.append(e)
+    if not ctx.floor("R14.9", "calls inside the monitor loop that reach the transport locks", n, 1):
+        return
+    ctx.ob("R14.9", "monitor:probe-write-cannot-stall-the-give-up-test", not stalls, stalls[0].site if stalls else "",
+           "every call of the monitor loop that can queue for the transport locks is bounded by a deadline" if not stalls else
+           "the monitor loop awaits `%s` inline: it queues for Session.buffer / Session.writer, which a data write stuck in the transport holds for as long as the peer does not read; the loop never returns to the "
+           "tick, the give-up test is not evaluated again, and a peer that fell silent during an upload is not detected within timeout + interval (not until TCP itself gives up)" % stalls[0].dst.split("::{closure")[0].split("::")[-1])
+
+
 def run(ctx):
     from . import C20 as _C20t
     _C20t.r12_subtractions(ctx, _C20t.input_reachable(ctx))   # no subtraction (sizes, Durations) that can underflow and kill the task that computes it
     r6_monitor_is_the_only_silence_rule(ctx)
     from . import effects
     effects.check_property(ctx, "C14")    # R14.E: no operation on shared protocol state outside the reviewed table
+    from . import C01 as _C01r
+    _C01r.r3_r4_recv_buffer(ctx)    # every complete frame in the receive buffer is dispatched before the loop waits for more input: a response that has arrived is handled, not left behind a backlog
     r5_every_tick_probes(ctx)
     r7_zero_period_is_not_accepted(ctx)
     r8_give_up_test_is_taken_at_the_tick(ctx)
+    r9_nothing_stalls_the_give_up_test(ctx)
     C09.r4_close_body(ctx)    # giving up releases all waiters: close() drains streams before it waits for the transport
     from . import C08
     C08.r2_single_sender_owner(ctx)   # ... and dropping the table's sender is enough to release a reader only if nobody else holds a clone
